@@ -78,6 +78,18 @@ theorem literal_chain_eq_interp (xs : List Val) (steps : List EStep) :
     execSeq (vecSource xs :: steps.map EStep.toNode) = .ok (interp steps xs) :=
   execSeq_elemChain xs steps
 
+/-- compositionality ("one after another"): a pipeline of steps `a` followed by steps `b` returns what the pipeline `b`
+    returns when it is fed, as a fresh source, the result of the pipeline `a` — collecting half-way and continuing from
+    the collected rows is indistinguishable from running straight through -/
+theorem literal_chain_compose (xs : List Val) (a b : List EStep) :
+    execSeq (vecSource xs :: (a ++ b).map EStep.toNode)
+      = execSeq (vecSource (interp a xs) :: b.map EStep.toNode) := by
+  rw [literal_chain_eq_interp, literal_chain_eq_interp, interp_append]
+
+/-- the pipeline with no steps returns its source rows, in order -/
+theorem literal_chain_no_steps (xs : List Val) : execSeq [vecSource xs] = .ok xs := by
+  simpa using literal_chain_eq_interp xs []
+
 /-- each operator the builders insert computes its step's list meaning on every partition -/
 theorem operator_eq_step (s : EStep) (rows : List Val) : s.toOp.apply rows = s.eval rows :=
   toOp_apply s rows
